@@ -33,7 +33,7 @@ Cand(kind) ==
     [] kind = "timestamp" -> <<Ts("2021-02-03T04:05:06.789Z"), Ts("1970-01-01T00:00:00Z")>>
     [] kind = "regex" -> <<Rx("a"), Rx("(?P<x>\\d+)"), Rx("")>>
     [] kind = "array" -> <<Arr(<<IntV(1), Str("a")>>), EmptyArr, Arr(<<Str("a"), Str("b")>>), Arr(<<Arr(<<IntV(1)>>), Arr(<<IntV(2)>>)>>),
-                           Arr(<<Obj([k |-> IntV(1)])>>)>>
+                           Arr(<<Obj([k |-> IntV(1)])>>), Arr(<<Str("a"), Str("b"), IntV(3)>>), Arr(<<Str("x"), Null, Str("y")>>)>>
     [] kind = "object" -> <<Obj([a |-> IntV(1)]), EmptyObj, Obj([k |-> Str("v"), n |-> Null]), Obj([a |-> Obj([b |-> Arr(<<IntV(1), IntV(2)>>)])])>>
     [] OTHER -> <<>>
 AllKinds == <<"bytes", "integer", "float", "boolean", "null", "timestamp", "regex", "array", "object">>
